@@ -29,6 +29,7 @@ inductive PyVal
   | list (l : List PyVal)
   | tuple (l : List PyVal)
   | dict (kv : List (Str × PyVal))     -- string keys, insertion order
+  | set (frozen : Bool) (l : List PyVal)   -- a set / frozenset, its elements in WHATEVER order the interpreter iterates them
 deriving Repr, Inhabited
 
 def escapeChar (q : Char) (c : Char) : Str :=
@@ -49,6 +50,28 @@ def intercalate (sep : Str) : List Str → Str
   | [x] => x
   | x :: y :: rest => x ++ sep ++ intercalate sep (y :: rest)
 
+/-- Python's order on strings: lexicographic by code point -/
+def strLe : Str → Str → Bool
+  | [], _ => true
+  | _ :: _, [] => false
+  | a :: as, b :: bs => if a.toNat < b.toNat then true else if b.toNat < a.toNat then false else strLe as bs
+
+def insertSorted (x : Str) : List Str → List Str
+  | [] => [x]
+  | y :: ys => if strLe x y then x :: y :: ys else y :: insertSorted x ys
+
+/-- `sorted(strings)` -/
+def sortStrs (l : List Str) : List Str := l.foldr insertSorted []
+
+/-- `fluent._render` of a set / frozenset whose elements are already rendered (fix commit: the elements are listed in
+sorted order of their renderings; `set()` / `frozenset()` when empty) -/
+def renderSet (frozen : Bool) (items : List Str) : Str :=
+  match sortStrs items with
+  | [] => if frozen then "frozenset()".toList else "set()".toList
+  | xs =>
+    if frozen then "frozenset({".toList ++ intercalate [',', ' '] xs ++ ['}', ')']
+    else '{' :: intercalate [',', ' '] xs ++ ['}']
+
 mutual
 def PyVal.repr : PyVal → Str
   | .int i => (toString i).toList
@@ -62,6 +85,7 @@ def PyVal.repr : PyVal → Str
     | [x] => '(' :: x ++ [',', ')']
     | xs => '(' :: intercalate [',', ' '] xs ++ [')']
   | .dict kv => '{' :: intercalate [',', ' '] (reprItems kv) ++ ['}']
+  | .set frozen l => renderSet frozen (reprAll l)
 def reprAll : List PyVal → List Str
   | [] => []
   | v :: vs => v.repr :: reprAll vs
@@ -342,6 +366,66 @@ def selectH (h : Heap) (a : Nat) (crit : Option (String × Sel Coord)) (drop : B
       match select d s drop (h.cell a) with
       | .ok r => .ok (h ++ [r], h.length)
       | .error e => .error e
+
+/-! ### binary operations on the heap: `Action.join`, `__two_arg_method`
+
+`join` reads `self.nodes` and `other_action.nodes`, relabels the OTHER array when `match_coord_values` is set, and wraps the
+concatenation in a new action object. The one assignment in it is `other_nodes = other_nodes.assign_coords(…)`: a LOCAL
+variable in the code (fix commit b567c45); the pinned tree assigned `other_action.nodes = …`, i.e. wrote the operand's cell. -/
+
+/-- where `join(match_coord_values=True)` stores the relabelled copy of the other action's node array -/
+inductive MatchStore
+  /-- `other_nodes = other_nodes.assign_coords(…)` — a local variable (the code) -/
+  | localVar
+  /-- `other_action.nodes = other_action.nodes.assign_coords(…)` — the operand object (the pinned defect) -/
+  | operand
+deriving DecidableEq, Repr
+
+/-- `Action.join(other_action, dim, match_coord_values)` on the heap: receiver cell `a`, operand cell `b`; the result is a
+new object -/
+def joinH (w : MatchStore) (h : Heap) (a b : Nat) (dim : DimArg) (mtch : Bool) : Except Err (Heap × Nat) :=
+  if mtch then
+    match matchCoords (h.cell a) (h.cell b) with
+    | .error e => .error e
+    | .ok b' =>
+      let h1 : Heap := match w with | .localVar => h | .operand => h.set b b'
+      match joinCore (h1.cell a) b' dim with
+      | .ok r => .ok (h1 ++ [r], h1.length)
+      | .error e => .error e
+  else
+    match joinCore (h.cell a) (h.cell b) dim with
+    | .ok r => .ok (h ++ [r], h.length)
+    | .error e => .error e
+
+/-- `__two_arg_method(method, other)` with an action: `self.join(other, "**datatype**", match_coord_values=True).reduce(…)` —
+two new objects: the joined action (not reachable afterwards) and the result -/
+def arithH (w : MatchStore) (h : Heap) (fn : String) (a b : Nat) : Except Err (Heap × Nat) :=
+  match joinH w h a b (.name datatypeDim) true with
+  | .error e => .error e
+  | .ok (h1, j) =>
+    match reduce { fn := fn } none "" 0 false (h1.cell j) with
+    | .ok r => .ok (h1 ++ [r], h1.length)
+    | .error e => .error e
+
+/-- a binary operation between two action objects -/
+inductive BOp
+  | join (a b : Nat) (dim : DimArg) (mtch : Bool)
+  | arith (fn : String) (a b : Nat)
+
+def BOp.runH (w : MatchStore) (h : Heap) : BOp → Except Err (Heap × Nat)
+  | .join a b dim m => joinH w h a b dim m
+  | .arith fn a b => arithH w h fn a b
+
+/-- one binary statement: on failure nothing the program can reach has changed (the write of the `.operand` variant happens
+before anything can fail afterwards only in `joinCore`; the variant is the refuted one) -/
+def bstep (w : MatchStore) (h : Heap) (o : BOp) : Heap :=
+  match o.runH w h with
+  | .ok (h', _) => h'
+  | .error _ => h
+
+def brun (w : MatchStore) : Heap → List BOp → Heap
+  | h, [] => h
+  | h, o :: os => brun w (bstep w h o) os
 
 /-- the operations of a fluent program, on the heap -/
 inductive HOp (P : Type)
